@@ -35,6 +35,9 @@ type Prop struct {
 
 var props = map[string]*Prop{}
 
+// hangs counts watchdog expiries in this process.
+var hangs int
+
 func Register(id string, p *Prop) { props[id] = p }
 
 // runSafe executes the implementation under recover and a watchdog.
@@ -42,6 +45,13 @@ func runSafe(p *Prop, fields []string) string {
 	to := p.Timeout
 	if to == 0 {
 		to = 5 * time.Second
+	}
+	if ms, err := strconv.Atoi(os.Getenv("VERIF_CASE_TIMEOUT_MS")); err == nil && ms > 0 && p.Timeout == 0 {
+		to = time.Duration(ms) * time.Millisecond
+	}
+	if hangs >= 8 {
+		// the implementation under test keeps hanging: do not spend the whole budget waiting
+		return "hang-skipped"
 	}
 	ch := make(chan string, 1)
 	go func() {
@@ -58,6 +68,7 @@ func runSafe(p *Prop, fields []string) string {
 	case s := <-ch:
 		return s
 	case <-time.After(to):
+		hangs++
 		return "hang"
 	}
 }
